@@ -234,11 +234,16 @@ pub fn gen_graph(rng: &mut Rng, allow_nested: bool) -> Graph {
     }
     // INCLUDE_DIR: unset, the usual directory, and now and then an odd but legal value (a
     // trailing slash, the includers' own directory, the empty string)
-    let include_dir = match rng.below(12) {
+    let include_dir = match rng.below(13) {
         0..=5 => None,
         6..=8 => Some("/w/inc".to_string()),
         9 => Some("/w/inc/".to_string()),
-        10 => Some("/w".to_string()),
+        10 | 11 => match rng.below(3) {
+            0 => Some("/w".to_string()),
+            // not normalised: the same directory spelled through "." or ".."
+            1 => Some("/w/sub/../inc".to_string()),
+            _ => Some("/w/./inc".to_string()),
+        },
         _ => Some(String::new()),
     };
     let nested_graph = allow_nested && rng.chance(1, 4);
